@@ -389,6 +389,11 @@ pub fn knobs(profile: &str) -> Knobs {
         "reads" => Knobs {
             callers: (1, 4), ops: (25, 60), keys: (2, 6), pools: vec![1, 1, 2, 3], buffers: vec![1, 1, 2, 3], mixw: [14, 8, 5, 55, 16, 1, 1],
             ttl_pct: 20, stall_consumer_pct: 50, await_pcts: vec![50, 100], max_weights: vec![10, 50, 200], ..d },
+        // value-less upserts (remove / change the time to live) racing evictions and sweeps in a small cache (C17, C08, C10)
+        "evictrace" => Knobs {
+            callers: (2, 3), ops: (20, 45), keys: (3, 6), max_weights: vec![3, 4, 6], mixw: [34, 40, 4, 18, 2, 2, 0],
+            ttl_pct: 85, weight_pct: 90, pou_ttl_pct: 100, await_pcts: vec![0, 30, 70], advance_pcts: vec![8, 15, 25], max_advances: vec![1, 2],
+            sweeper_pcts: vec![60, 100], ttls: vec![1, 2, 3], heavy_pct: 0, ..d },
         // statistics (C16): quiescent observation at the end, all-hit and all-miss mixes, weight changes
         "stats" => Knobs {
             callers: (1, 2), ops: (15, 40), keys: (2, 6), mixw: [22, 22, 8, 34, 6, 2, 6], final_reads: true, await_pcts: vec![50, 100],
@@ -536,6 +541,16 @@ pub fn generate(profile: &str, seed: u64, count: usize) -> Vec<Scenario> {
                                 }
                             }
                         }
+                    }
+                }
+                sc
+            }
+            "evictrace" => {
+                let mut sc = gen.history(&name, &knobs("evictrace"));
+                for (_, program) in sc.programs.iter_mut() {
+                    for o in program.iter_mut() {
+                        if o.op == "pou" && gen.rng.gen_bool(0.7) { o.v = -1; o.w = -1; if o.ttl < 0 && !o.rm { o.rm = true; } }
+                        if o.op == "put" && o.w > 2 { o.w = gen.rng.gen_range(1..=2); }
                     }
                 }
                 sc
